@@ -11,6 +11,11 @@ if len(sys.argv) > 1:
             k, v = l.split(':', 1)
             matrix[k.strip()] = v.split()
 first = json.load(open(sys.argv[2])) if len(sys.argv) > 2 else {}
+R6 = ('C01-5 C02-6 C03-6 C04-5 C05-6 C06-5 C07-6 C08-6 C09-6 C10-5 C11-6 C12-6 '
+      'C13-6 C14-5 C15-6 C16-5 C17-5 C18-5 C19-5 C20-6').split()
+R7 = ('C01-6 C02-7 C03-7 C04-6 C05-7 C06-6 C07-7 C08-7 C09-7 C10-6 C11-7 C12-7 '
+      'C13-7 C14-6 C15-7 C16-6 C17-6 C18-6 C19-6 C20-7').split()
+ROUNDS = dict([(x, 6) for x in R6] + [(x, 7) for x in R7])
 for d in sorted(os.listdir(os.path.join(V, 'seeded'))):
     p = os.path.join(V, 'seeded', d)
     mp = os.path.join(p, 'meta.json')
@@ -30,13 +35,13 @@ for d in sorted(os.listdir(os.path.join(V, 'seeded'))):
     files = sorted(set(re.findall(r'^\+\+\+ b/(\S+)', open(os.path.join(p, 'patch.diff')).read(), re.M)))
     prop = d.split('-')[0]
     meta = {
-        'id': d, 'property': prop, 'round': 4,
+        'id': d, 'property': prop, 'round': ROUNDS.get(d, 4),
         'summary': section('a'), 'needs_to_manifest': section('b'),
         'why_tests_pass': section('c'), 'files': files,
         'source': 'independent sub-agent given only the property record, a scratch worktree and a list of earlier change sites to avoid',
         'confirmed': {
             'demo_with_change': 'fails (re-run by me in the scratch worktree): ' + conf[0],
-            'demo_without_change': 'passes (change stashed): ' + conf[1],
+            'demo_without_change': 'passes (change taken out with git checkout and re-applied from its diff): ' + conf[1],
             'pinned_suite_with_change': conf[2],
             'how_to_run': 'git -C /repo apply /verif/seeded/%s/patch.diff; cp /verif/seeded/%s/demo_test.py /repo/; (cd /repo && /venv/bin/python -m pytest -q -p no:cacheprovider demo_test.py); rm /repo/demo_test.py; git -C /repo checkout -- .' % (d, d),
             'checks_run': 'tools/harvest_seed.sh (all quick checks against the changed worktree)'},
